@@ -22,9 +22,12 @@ def applyEv (s : Cfg) (ev : String) : Except String Cfg :=
   | some 'e', some k => tryAct s (Act.hEnd k) ev
   | some 'c', some k => tryAct s (Act.hClose k) ev
   | some 'd', some k => tryAct s (Act.hDec k) ev
-  | some 'S', _ => tryAct s (Act.check true) ev
+  | some 'S', _ =>
+    -- the loop saw `_requestStop == true`: the controller's write has happened, even if its hook point
+    -- (placed after the assignment) has not been recorded yet
+    (if s.reqStop then pure s else tryAct s Act.reqStop ev) >>= fun s => tryAct s (Act.check true) ev
   | some 's', _ => tryAct s (Act.check false) ev
-  | some 'R', _ => tryAct s Act.reqStop ev
+  | some 'R', _ => if s.reqStop then pure s else tryAct s Act.reqStop ev
   | some 'T', _ =>
     -- stop(true) returns: its last reads must have seen `_running == false` and `_numClients == 0`
     tryAct s Act.readRunning ev >>= fun s => tryAct s Act.readNum ev >>= fun s =>
